@@ -369,6 +369,7 @@ yaclib::Future<> Worker(Case* c, M* m, int w, yaclib::IExecutor* e, yaclib::IExe
         }
       } break;
       default: {
+        yaclib::IExecutor* home = &(co_await yaclib::CurrentExecutor());
         auto g = co_await m->GuardSticky();
         if (!g) {
           sim::Fail("GUARD_NOT_OWNING", "co_await GuardSticky() returned a guard that does not own the lock");
@@ -376,7 +377,15 @@ yaclib::Future<> Worker(Case* c, M* m, int w, yaclib::IExecutor* e, yaclib::IExe
         }
         CRITICAL_SECTION();
         if (r.unlock == kUnlock) {
+          // the sticky guard remembers the executor the coroutine was in when it asked for the lock and returns it there
           co_await g.Unlock();
+          if (&(co_await yaclib::CurrentExecutor()) != home) {
+            sim::Fail("WRONG_EXECUTOR", "after co_await stickyGuard.Unlock() CurrentExecutor() of coroutine %d is not the executor it had when it asked for the lock (had tag %d, has tag %d, runs in tag %d)", w,
+                      static_cast<sim::Proxy*>(home)->tag(), static_cast<sim::Proxy*>(&(co_await yaclib::CurrentExecutor()))->tag(), sim::CurrentExec());
+          } else if (sim::CurrentExec() != static_cast<sim::Proxy*>(home)->tag()) {
+            sim::Fail("WRONG_EXECUTOR", "after co_await stickyGuard.Unlock() coroutine %d does not run in the executor it had when it asked for the lock (runs in tag %d)", w,
+                      sim::CurrentExec());
+          }
         }
       } break;
     }
